@@ -225,3 +225,24 @@ PLANS['C16'] = dict(run=_c16_run, replay=s_config.replay, replay_kind='config',
                                  "templates, filter concatenation, directory resolution); the tie to the real stack is exhaustive enumeration of "
                                  "the finite configuration space, not proof", "null values in a higher-priority source are outside the quantifier",
                                  "defaults are read from config_default.yaml at run time"])
+
+
+# ---- C17 --------------------------------------------------------------------------------------------------------------
+import s_c17
+
+
+def _c17_run(tier, seed, out, drv):
+    s_c17.c17_suite(seed, 50 if tier == 'quick' else 1000, out, drv, thorough=tier != 'quick', budget_s=120 if tier == 'quick' else 1500)
+
+
+def _c17_search(tier, seed, out, drv, dis):
+    s_c17.c17_suite(seed + 7919, 150, out, drv, budget_s=240)
+
+
+PLANS['C17'] = dict(run=_c17_run, search=_c17_search, replay=s_c17.replay, replay_kind='tree',
+                    rule="random trees and lone files, each documented by the real code from two working directories, at two absolute locations "
+                         "(same directory name), under permuted directory listings, twice into the same output directory, and inside a longer run "
+                         "with other files documented before and after through the same settings object (thorough: also fresh interpreters with "
+                         "PYTHONHASHSEED 0/1/12345); all output trees byte-compared; non-trivial = at least 2 files written or a lone file",
+                    assumptions=TREE_ASSUME + ["hash seed and re-execution have no counterpart in a functional model: that half is carried by the "
+                                               "correspondence runs, the theorems cover history independence of the model"])
